@@ -607,7 +607,9 @@ def process_extract(block_text, tmpl_path, tmpl_line, report):
     for d, arg, payload, ln in items:
         origin = ('inj', f'{os.path.basename(tmpl_path)}:{ln} @{d} {arg}'.strip())
         info['directives'].append(f'@{d} {arg}'.strip())
-        if d == 'recv':
+        if d == 'tags':
+            info['tags'] = arg.split()
+        elif d == 'recv':
             ft.recv_mut()
         elif d == 'rename':
             a, b = arg.split()
@@ -741,6 +743,8 @@ def generate(tmpl_path, out_path):
         tmpl_line = text.count('\n', 0, m.start()) + 1
         fn_pieces, info = process_extract(m.group(1), tmpl_path, tmpl_line, report)
         pieces.append((f'// ==== extracted from {info["file"]}:{info["line"]} fn {info["fn"]}\n', ('tmpl', tmpl_line)))
+        if info.get('tags'):
+            pieces.append(('//@tags ' + ' '.join(info['tags']) + '\n', ('tmpl', tmpl_line)))
         for p in fn_pieces:
             pieces.append((p[0], ('fn', info['fn'], info['file']) + tuple(p[1])))
         pieces.append((f'\n// ==== end {info["fn"]}\n', ('tmpl', tmpl_line)))
